@@ -40,7 +40,8 @@ REQUIRED_COUNTERS = {"C19.faults_delivered": 20, "C19.crash_points": 50, "C19.ex
                      "C19.bigreq_completion_order_differs_from_request_order": 1, "C19.builtin_https_faults": 10}
 TIMEOUT = {"quick": 900, "thorough": 3600}
 OPS = {"gA": ["A"], "gAB": ["A", "B"], "gABC": ["A", "B", "C"], "reopen": None}
-FAULTS = ["notfound", "raise-before", "raise-half", "postprocess", "validation", "validation+notfound"]
+FAULTS = ["notfound", "raise-before", "raise-half", "postprocess", "validation", "validation+notfound",
+          "validation-after-accept"]
 MAXLEN = {"quick": 2, "thorough": 3}
 ALL = ["A", "B", "C"]
 LIMIT = 10 ** 6
@@ -178,6 +179,14 @@ def fault_run(ctx, hist, op_index, pos, fault, strict, parallel, continuation, w
                 return False
             target = cands[pos]
             target_box["k"] = target
+            if fault == "validation-after-accept":
+                # the same validator has accepted this very entry in an earlier request of the session (a hit);
+                # then the remote object changes and the validator rejects: the entry must be fetched afresh
+                with warnings.catch_warnings():
+                    warnings.simplefilter("ignore")
+                    cache[[directive_uri(target, fault)]]
+                ctx.count("C19.validator_accepted_before_rejecting")
+                fault = "validation"
             lab.log.clear()
             if fault in ("notfound", "raise-before", "raise-half"):
                 lab.plan[target] = fault
@@ -208,6 +217,12 @@ def fault_run(ctx, hist, op_index, pos, fault, strict, parallel, continuation, w
                 delivered = bool(state.get("vv_hit"))
             else:
                 delivered = bool(state.get("vv_hit")) and "notfound" in evs
+            if not delivered and fault == "validation":
+                # the request carried the validation directive for an entry that is in the cache, but the validation
+                # function was never consulted: whatever it would have rejected is served as a hit
+                ctx.check("C19.validation:rejected-entry-refetched", False, wit,
+                          {"validator_consulted": False, "raised": repr(raised)}, key="C19:validation:not-consulted")
+                return True
             if not delivered:
                 ctx.count("C19.faults_not_delivered")
                 return False
